@@ -12,6 +12,13 @@ Ltac ok_step :=
   first [ rewrite chk_i16_intro by lia | rewrite chk_u16_intro by lia | rewrite chk_usize_intro by lia
         | rewrite u16_as_i16_small by lia ]; cbn [bind].
 Ltac ok_steps := unfold_ops; repeat ok_step.
+Lemma chk_usize_mul_small : forall a b, 0 <= a <= 70000 -> 0 <= b <= 70000 -> chk_usize (a * b) = Ok (a * b).
+Proof. intros. apply chk_usize_intro. nia. Qed.
+
+Ltac ok_step2 :=
+  first [ ok_step | rewrite chk_usize_mul_small by lia | rewrite usize_as_i16_small by lia | rewrite i16_as_usize_small by lia
+        | rewrite i16_as_u16_small by lia | rewrite usize_as_u16_small by lia ]; cbn [bind].
+Ltac ok_steps2 := unfold_ops; repeat ok_step2.
 
 (* ------------------------------------------------------------------ tables are total on the domain *)
 Definition ozln (ln : Ln GP) (e : Z) : Ln GP := mkLn (ozp_spec (l_start ln) e) (ozp_spec (l_end ln) e).
@@ -150,4 +157,141 @@ Proof.
   - intros Hd. destruct (Hc2 Hd) as [s [Hs ?]]. exists s. split; auto. lia.
   - intros Hd. destruct (Hr1 Hd) as [r [Hr [? ?]]]. exists r. split; auto. lia.
   - intros Hd. destruct (Hr2 Hd) as [s [Hs ?]]. exists s. split; auto. lia.
+Qed.
+
+(* ------------------------------------------------------------------ matrix operations are total *)
+Lemma track_range_total : forall tc s, tc_nonneg tc -> tlen tc <= 32767 ->
+  -32768 <= l_start s + tc_neg tc <= 32767 -> -32768 <= l_end s + tc_neg tc <= 32767 ->
+  oz_line_range_to_track_range tc s = Ok (l_start s + tc_neg tc, l_end s + tc_neg tc).
+Proof.
+  intros tc s (Hn & He & Hp) Hl H1 H2. unfold tlen in Hl. unfold oz_line_range_to_track_range, oz_line_to_next_track.
+  ok_steps. reflexivity.
+Qed.
+
+Lemma unoccupied_total : forall m ax ps ss, wf m ->
+  let rs := row_span_of ax ps ss in let cs := col_span_of ax ps ss in
+  -32768 <= l_start rs + tc_neg (m_rows m) -> l_end rs + tc_neg (m_rows m) <= 32767 -> l_start rs <= l_end rs ->
+  -32768 <= l_start cs + tc_neg (m_cols m) -> l_end cs + tc_neg (m_cols m) <= 32767 -> l_start cs <= l_end cs ->
+  exists b, line_area_is_unoccupied m ax ps ss = Ok b.
+Proof.
+  intros m ax ps ss (Hnr & Hnc & Hlr & Hlc & _) rs cs A1 A2 A3 B1 B2 B3. unfold line_area_is_unoccupied.
+  subst rs cs. destruct ax; simpl in *; rewrite !track_range_total by (auto; lia); cbn [bind]; eauto.
+Qed.
+
+(* an area that starts at or beyond the last track of one axis is free *)
+Lemma unoccupied_beyond : forall m ax ps ss b, wf m -> line_area_is_unoccupied m ax ps ss = Ok b ->
+  let rs := row_span_of ax ps ss in let cs := col_span_of ax ps ss in
+  (tc_explicit (m_rows m) + tc_pos (m_rows m) <= l_start rs \/ tc_explicit (m_cols m) + tc_pos (m_cols m) <= l_start cs) ->
+  b = true.
+Proof.
+  intros m ax ps ss b Hwf H rs cs Hb. apply (unoccupied_spec _ _ _ _ _ Hwf H).
+  intros r c Hr Hc. unfold cellv. destruct Hwf as (_ & _ & _ & _ & Hreg).
+  eapply gc_out; eauto. unfold tlen. fold rs cs in Hr, Hc. lia.
+Qed.
+
+Lemma foldM_collect_total : forall A B (f : A -> res B) l acc,
+  (forall i, In i l -> exists x, f i = Ok x) ->
+  exists xs, foldM (fun acc i => do x <- f i; Ok (acc ++ [x])) l acc = Ok (acc ++ xs).
+Proof.
+  induction l; simpl; intros acc H.
+  - exists []. rewrite app_nil_r. reflexivity.
+  - destruct (H a (or_introl eq_refl)) as [x Hx]. rewrite Hx. cbn [bind].
+    destruct (IHl (acc ++ [x])) as [xs Hxs]; [intros; apply H; auto|].
+    exists (x :: xs). rewrite Hxs, <- app_assoc. reflexivity.
+Qed.
+
+Lemma grid_get_some : forall g R C r c, reg g R C -> 0 <= r < R -> 0 <= c < C -> exists x, grid_get g r c = Some x.
+Proof.
+  intros g R C r c Hreg Hr Hc. unfold grid_get.
+  pose proof (reg_rows _ _ _ Hreg) as HRr. pose proof (reg_cols _ _ _ Hreg) as HCc.
+  destruct (Z.eqb_spec R 0); [lia|]. destruct (Z.eqb_spec C 0); [lia|]. simpl in *.
+  rewrite HRr, HCc.
+  destruct (Z.leb_spec 0 r); [|lia]. destruct (Z.ltb_spec r R); [|lia]. destruct (Z.leb_spec 0 c); [|lia]. destruct (Z.ltb_spec c C); [|lia].
+  simpl. pose proof (reg_row_length g R C r Hreg ltac:(lia)) as Hlen. rewrite HCc in Hlen.
+  destruct (nth_error (nth (Z.to_nat r) g []) (Z.to_nat c)) eqn:E; eauto.
+  apply nth_error_None in E. lia.
+Qed.
+
+Lemma copy_row_total : forall g R C k row, reg g R C -> 0 <= row < R -> exists x, copy_row g C k row = Ok x.
+Proof.
+  intros g R C k row Hreg Hrow. unfold copy_row.
+  destruct (foldM_collect_total _ _ (fun col => match grid_get g row col with Some x => Ok x | None => Err OutOfBounds end) (zrange 0 C) []) as [xs Hxs].
+  - intros i Hi. apply zrange_In in Hi. destruct (grid_get_some g R C row i Hreg Hrow ltac:(lia)) as [x Hx]. rewrite Hx. eauto.
+  - rewrite Hxs. cbn [bind]. eauto.
+Qed.
+
+Lemma expand_total : forall m rr cr, wf m -> 0 <= fst rr -> 0 <= fst cr -> 0 <= snd rr <= 32767 -> 0 <= snd cr <= 32767 ->
+  exists m', expand_to_fit_range m rr cr = Ok m'.
+Proof.
+  intros m rr cr Hwf Hfr Hfc Hsr Hsc. pose proof Hwf as (Hnr & Hnc & Hlr & Hlc & Hreg).
+  assert (Hr0 : 0 <= tlen (m_rows m)) by (destruct Hnr as (?&?&?); unfold tlen; lia).
+  assert (Hc0 : 0 <= tlen (m_cols m)) by (destruct Hnc as (?&?&?); unfold tlen; lia).
+  unfold expand_to_fit_range.
+  rewrite (tc_len_intro (m_rows m)) by (auto; lia). cbn [bind].
+  rewrite (tc_len_intro (m_cols m)) by (auto; lia). cbn [bind].
+  replace (Z.min (fst rr) 0) with 0 by lia. replace (Z.min (fst cr) 0) with 0 by lia.
+  ok_steps2. change (0 <? 0) with false. cbn [orb]. ok_steps2.
+  destruct (foldM_collect_total _ _ (fun row => copy_row (m_inner m) (tlen (m_cols m)) (Z.max (snd cr - tlen (m_cols m)) 0) row) (zrange 0 (tlen (m_rows m))) []) as [xs Hxs].
+  { intros i Hi. apply zrange_In in Hi. eapply copy_row_total; eauto. }
+  rewrite Hxs. cbn [bind].
+  destruct Hnr as (?&?&?). destruct Hnc as (?&?&?). unfold tlen in *. ok_steps2. eauto.
+Qed.
+
+Lemma is_area_in_range_total : forall m cr rr, wf m -> exists b, is_area_in_range m Horizontal cr rr = Ok b.
+Proof.
+  intros m cr rr (Hnr & Hnc & Hlr & Hlc & _). unfold is_area_in_range. simpl.
+  rewrite (tc_len_intro (m_cols m)) by (auto; lia). rewrite (tc_len_intro (m_rows m)) by (auto; lia). cbn [bind].
+  destruct (fst cr <? 0); cbn [bind]; eauto.
+  destruct (snd cr >? usize_as_i16 (tlen (m_cols m))); cbn [bind]; eauto.
+  destruct (fst rr <? 0); cbn [bind]; eauto.
+  destruct (snd rr >? usize_as_i16 (tlen (m_rows m))); cbn [bind]; eauto.
+Qed.
+
+Lemma mark_area_total : forall m ax ps ss v, wf m ->
+  let rs := row_span_of ax ps ss in let cs := col_span_of ax ps ss in
+  - tc_neg (m_rows m) <= l_start rs -> l_start rs < l_end rs -> l_end rs + tc_neg (m_rows m) <= 32767 ->
+  - tc_neg (m_cols m) <= l_start cs -> l_start cs < l_end cs -> l_end cs + tc_neg (m_cols m) <= 32767 ->
+  exists m', mark_area_as m ax ps ss v = Ok m'.
+Proof.
+  intros m ax ps ss v Hwf rs cs A1 A2 A3 B1 B2 B3. pose proof Hwf as (Hnr & Hnc & Hlr & Hlc & Hreg).
+  unfold mark_area_as.
+  assert (Hspans : (match ax with Horizontal => (ss, ps) | Vertical => (ps, ss) end) = (rs, cs)) by (destruct ax; reflexivity).
+  rewrite Hspans.
+  rewrite (track_range_total (m_cols m) cs) by (auto; lia). cbn [bind].
+  rewrite (track_range_total (m_rows m) rs) by (auto; lia). cbn [bind].
+  destruct (is_area_in_range_total m (l_start cs + tc_neg (m_cols m), l_end cs + tc_neg (m_cols m))
+                                   (l_start rs + tc_neg (m_rows m), l_end rs + tc_neg (m_rows m)) Hwf) as [b Hb].
+  rewrite Hb. cbn [bind]. destruct b.
+  - cbn [bind]. apply is_area_in_range_true in Hb; auto. simpl in Hb.
+    pose proof (reg_rows _ _ _ Hreg) as HRr. pose proof (reg_cols _ _ _ Hreg) as HCc.
+    assert (tlen (m_rows m) <> 0 /\ tlen (m_cols m) <> 0) by lia.
+    destruct (Z.eqb_spec (tlen (m_rows m)) 0); [lia|]. destruct (Z.eqb_spec (tlen (m_cols m)) 0); [lia|]. simpl in HRr, HCc.
+    unfold set_area. simpl fst. simpl snd. rewrite HRr, HCc.
+    destruct (Z.leb_spec (l_end rs + tc_neg (m_rows m)) (l_start rs + tc_neg (m_rows m))); [lia|].
+    destruct (Z.leb_spec (l_end cs + tc_neg (m_cols m)) (l_start cs + tc_neg (m_cols m))); [lia|]. cbn [orb].
+    destruct (Z.leb_spec 0 (l_start rs + tc_neg (m_rows m))); [|lia].
+    destruct (Z.leb_spec (l_end rs + tc_neg (m_rows m)) (tlen (m_rows m))); [|lia].
+    destruct (Z.leb_spec 0 (l_start cs + tc_neg (m_cols m))); [|lia].
+    destruct (Z.leb_spec (l_end cs + tc_neg (m_cols m)) (tlen (m_cols m))); [|lia].
+    cbn [andb bind]. eauto.
+  - destruct (expand_total m (l_start rs + tc_neg (m_rows m), l_end rs + tc_neg (m_rows m))
+                             (l_start cs + tc_neg (m_cols m), l_end cs + tc_neg (m_cols m)) Hwf) as [m1 Hm1]; simpl; try lia.
+    rewrite Hm1. cbn [bind].
+    pose proof (expand_spec _ _ _ _ Hwf Hm1 ltac:(simpl; lia) ltac:(simpl; lia)) as
+      (Hwf1 & _ & _ & Hn1 & He1 & Hp1 & Hn2 & He2 & Hp2 & _). simpl in Hp1, Hp2.
+    pose proof Hwf1 as (Hnr1 & Hnc1 & Hlr1 & Hlc1 & Hreg1).
+    rewrite (track_range_total (m_cols m1) cs) by (auto; rewrite ?Hn2; lia). cbn [bind].
+    rewrite (track_range_total (m_rows m1) rs) by (auto; rewrite ?Hn1; lia). cbn [bind].
+    pose proof (reg_rows _ _ _ Hreg1) as HRr. pose proof (reg_cols _ _ _ Hreg1) as HCc.
+    assert (HR1 : l_end rs + tc_neg (m_rows m) <= tlen (m_rows m1)) by (unfold tlen in *; lia).
+    assert (HC1 : l_end cs + tc_neg (m_cols m) <= tlen (m_cols m1)) by (unfold tlen in *; lia).
+    destruct (Z.eqb_spec (tlen (m_rows m1)) 0); [lia|]. destruct (Z.eqb_spec (tlen (m_cols m1)) 0); [lia|]. simpl in HRr, HCc.
+    unfold set_area. simpl fst. simpl snd. rewrite HRr, HCc, Hn1, Hn2.
+    destruct (Z.leb_spec (l_end rs + tc_neg (m_rows m)) (l_start rs + tc_neg (m_rows m))); [lia|].
+    destruct (Z.leb_spec (l_end cs + tc_neg (m_cols m)) (l_start cs + tc_neg (m_cols m))); [lia|]. cbn [orb].
+    destruct (Z.leb_spec 0 (l_start rs + tc_neg (m_rows m))); [|lia].
+    destruct (Z.leb_spec (l_end rs + tc_neg (m_rows m)) (tlen (m_rows m1))); [|lia].
+    destruct (Z.leb_spec 0 (l_start cs + tc_neg (m_cols m))); [|lia].
+    destruct (Z.leb_spec (l_end cs + tc_neg (m_cols m)) (tlen (m_cols m1))); [|lia].
+    cbn [andb bind]. eauto.
 Qed.
